@@ -8,6 +8,7 @@ explicit whitespace `Text` and comments are items. It is what tree-sitter delive
     expr          : leaf | `[` items closeGap `]` | [`rec` recGap] `{` items closeGap `}`
                   | `(` items closeGap `)`            (comments and exactly one expression)
                   | expr (gap comment)* gap expr      (function application)
+                  | (`with` | `assert`) (gap comment)* gap expr (gap comment)* gap `;` (gap comment)* gap expr
     list items    : (gap comment | gap expr)*
     set items     : (gap comment | gap binding)*
     binding       : name (gap comment)* gap `=` (gap comment)* gap expr (gap comment)* gap `;`
@@ -42,6 +43,9 @@ inductive Cst where
   | paren (items : Items) (closeGap : Text)
   /-- function (gap comment)* gap argument — `apply_expression` -/
   | app (f : Cst) (cs : GC) (g : Text) (a : Cst)
+  /-- `with` c1 g1 environment c2 g2 `;` c3 g3 body — `with_expression` (`isWith`), or
+      `assert` c1 g1 condition c2 g2 `;` c3 g3 body — `assert_expression` -/
+  | kw (isWith : Bool) (c1 : GC) (g1 : Text) (head : Cst) (c2 : GC) (g2 : Text) (c3 : GC) (g3 : Text) (body : Cst)
 inductive Items where
   | nil
   /-- gap, comment token -/
@@ -62,6 +66,9 @@ structure File where
 
 def flattenGC (cs : GC) : Text := cs.flatMap fun p => p.1 ++ p.2
 
+/-- the keyword token of a `kw` node -/
+def kwText (isWith : Bool) : Text := if isWith then ['w', 'i', 't', 'h'] else ['a', 's', 's', 'e', 'r', 't']
+
 mutual
 def Cst.flatten : Cst → Text
   | .leaf _ t => t
@@ -69,6 +76,8 @@ def Cst.flatten : Cst → Text
   | .set r rg its cg => (if r then ['r', 'e', 'c'] ++ rg else []) ++ '{' :: its.flatten ++ cg ++ ['}']
   | .paren its cg => '(' :: its.flatten ++ cg ++ [')']
   | .app f cs g a => f.flatten ++ flattenGC cs ++ g ++ a.flatten
+  | .kw w c1 g1 h c2 g2 c3 g3 b =>
+    kwText w ++ flattenGC c1 ++ g1 ++ h.flatten ++ flattenGC c2 ++ g2 ++ ';' :: flattenGC c3 ++ g3 ++ b.flatten
 def Items.flatten : Items → Text
   | .nil => []
   | .cmt g t rest => g ++ t ++ rest.flatten
@@ -112,6 +121,7 @@ def Cst.lex : Cst → List Lex
   | .set r _ its _ => (if r then [.tok ['r', 'e', 'c']] else []) ++ .tok ['{'] :: its.lex ++ [.tok ['}']]
   | .paren its _ => .tok ['('] :: its.lex ++ [.tok [')']]
   | .app f cs _ a => f.lex ++ lexGC cs ++ a.lex
+  | .kw w c1 _ h c2 _ c3 _ b => .tok (kwText w) :: lexGC c1 ++ h.lex ++ lexGC c2 ++ .tok [';'] :: lexGC c3 ++ b.lex
 def Items.lex : Items → List Lex
   | .nil => []
   | .cmt _ t rest => .cmt t :: rest.lex
@@ -230,6 +240,11 @@ def Cst.wf : Cst → Bool
   | .set r rg its cg => (r || rg.isEmpty) && isGap rg && its.wf .set cg && isGap cg
   | .paren its cg => its.wf .paren cg && its.countElems == 1 && isGap cg
   | .app f cs g a => f.wf && gcOk cs g && isGap g && a.wf
+  -- `with`: the three inner gaps are whitespace only. (The comment paths of `WithStatement.from_cst`
+  -- and the whole of `Assertion.from_cst` / `rebuild` are modelled, see `FromCst.lean` / `Rebuild.lean`,
+  -- and tied to the implementation — `Cst.modelled` below —, but are outside the theorems' fragment.)
+  | .kw w c1 g1 h c2 g2 c3 g3 b =>
+    w && c1.isEmpty && isGap g1 && h.wf && c2.isEmpty && isGap g2 && c3.isEmpty && isGap g3 && b.wf
 /-- `closeGap`: the whitespace after the last item (in front of the closing token / the end of the
     file) -/
 def Items.wf : Items → Mode → Text → Bool
@@ -240,6 +255,29 @@ def Items.wf : Items → Mode → Text → Bool
   | .bind g n c1 g1 c2 g2 v c3 g3 rest, m, cg =>
     m == .set && isGap g && nameOk n && gcOk c1 g1 && isGap g1 && gcOk c2 g2 && isGap g2 && v.wf &&
       gcOk c3 g3 && isGap g3 && rest.wf m cg
+end
+
+mutual
+/-- what the MODEL covers (a superset of `wf`, the theorems' fragment): `wf` with `assert` allowed and
+    with comments allowed in the inner gaps of `with` / `assert`. The driver answers `roundtrip`
+    requests on this set, so the transliterations of `WithStatement` / `Assertion` are compared with
+    the implementation also where no theorem speaks about them yet. -/
+def Cst.modelled : Cst → Bool
+  | .leaf k t => leafOk k t
+  | .list its cg => its.modelled .list cg && isGap cg
+  | .set r rg its cg => (r || rg.isEmpty) && isGap rg && its.modelled .set cg && isGap cg
+  | .paren its cg => its.modelled .paren cg && its.countElems == 1 && isGap cg
+  | .app f cs g a => f.modelled && gcOk cs g && isGap g && a.modelled
+  | .kw _ c1 g1 h c2 g2 c3 g3 b =>
+    gcOk c1 g1 && isGap g1 && h.modelled && gcOk c2 g2 && isGap g2 && gcOk c3 g3 && isGap g3 && b.modelled
+def Items.modelled : Items → Mode → Text → Bool
+  | .nil, _, _ => true
+  | .cmt g t rest, m, cg =>
+    isGap g && isCommentTok t && closedBy t (rest.firstGap.getD cg) (m == .file) && rest.modelled m cg
+  | .elem g c rest, m, cg => m != .set && isGap g && c.modelled && rest.modelled m cg
+  | .bind g n c1 g1 c2 g2 v c3 g3 rest, m, cg =>
+    m == .set && isGap g && nameOk n && gcOk c1 g1 && isGap g1 && gcOk c2 g2 && isGap g2 && v.modelled &&
+      gcOk c3 g3 && isGap g3 && rest.modelled m cg
 end
 
 /-- `WF`: gaps are whitespace, comments are comment tokens of the fragment (a line comment is
@@ -255,5 +293,9 @@ def File.noLeadingWs (f : File) : Bool := f.items.firstGap == some []
 
 /-- THE FRAGMENT: the files the model covers (the driver answers `(uncovered …)` for all others) -/
 def File.covered (f : File) : Bool := f.wf && f.noLeadingWs
+
+/-- the files the model is compared with the implementation on (`roundtrip` requests) -/
+def File.modelled (f : File) : Bool :=
+  f.items.modelled .file f.endGap && f.items.countElems = 1 && isGap f.endGap && f.noLeadingWs
 
 end Nima.Frag
